@@ -580,7 +580,9 @@ def _formula_to_format(
         string += sup(token)
     if len(parts) > 4:
         raise ValueError("Incorrect formula")
-    pre_str = "".join(map(lambda x: _subs(x, prefixes), parts[2]))
+    # each dropped prefix is a key of ``prefixes``: look it up directly, repeated
+    # substitution would also rewrite e.g. the "eta-" inside "beta-" and "theta-".
+    pre_str = "".join(prefixes[x] for x in parts[2])
     return pre_str + string + "".join(parts[3])
 
 
